@@ -8,6 +8,7 @@ mod c08;
 mod c10;
 mod c11;
 mod c12;
+mod c15;
 mod c17;
 mod cfgmut;
 mod common;
@@ -68,6 +69,7 @@ fn main() {
 		"C19" => dispatch!(builds::BuildCheck { id: "C19" }, args),
 		"C20" => dispatch!(builds::BuildCheck { id: "C20" }, args),
 		"transcript" => builds::transcript_main(&args[2..]),
+		"C15" => dispatch!(c15::C15, args),
 		"C09" => dispatch!(sched::SchedCheck { id: "C09" }, args),
 		"C13" => dispatch!(sched::SchedCheck { id: "C13" }, args),
 		"selfcheck-determinism" => {
